@@ -171,7 +171,10 @@ let k3_line (line : string) : string =
                 | s -> (match String.split_on_char ':' s with
                     | [st; a] -> Some (nat_of_int (int_of_string st), z_of_string a)
                     | _ -> failwith "panic"));
-            c_macro = ((try List.assoc "macro" fs with Not_found -> "0") = "1") } in
+            c_macro = ((try List.assoc "macro" fs with Not_found -> "0") = "1");
+            c_iter = (let sh = (try List.assoc "shape" fs with Not_found -> "") in
+                      List.exists (fun pre -> String.length sh >= String.length pre && String.sub sh 0 (String.length pre) = pre)
+                        ["iterx_"; "iteru_"; "deque_"; "endless_"]) } in
   let o = exec c in
   (* parameters as they stand after the stages, before the trailing setters *)
   let rec drop_last2 = function [] | [_] | [_; _] -> [] | x :: r -> x :: drop_last2 r in
